@@ -15,6 +15,11 @@ def _qlayer():
     return qlayer.generate(os.path.join(REPO, 'src/quantity/__init__.py'))
 
 
+def _oplayer():
+    from . import oplayer
+    return oplayer.generate(os.path.join(REPO, 'src/quantity/__init__.py'))
+
+
 def _temptable():
     from . import temptable
     return temptable.generate(os.path.join(REPO, 'src/quantity/predefined.py'))
@@ -43,6 +48,7 @@ def _doctables():
 GENERATORS = [
     ('RoundingImpl', _rounding),
     ('QuantityImpl', _qlayer),
+    ('OpsImpl', _oplayer),
     ('TempTable', _temptable),
     ('IsoTable', _isotable),
     ('Catalogue', _catalogue),
